@@ -45,10 +45,11 @@ fn num(rng: &mut Rng, d: &mut Doc) {
 }
 
 pub fn gen(rng: &mut Rng, _cfg: &PCfg, size: usize) -> Doc {
+    let long_pct = if size == 4 { 30 } else { 1 };
     let mut d = Doc::default();
     let n_lines = match size {
         0 => rng.below(4),
-        1 => rng.below(12),
+        1 | 4 => rng.below(12),
         3 => rng.range(2000, 3000),
         _ => rng.range(8, 50),
     };
@@ -64,7 +65,11 @@ pub fn gen(rng: &mut Rng, _cfg: &PCfg, size: usize) -> Doc {
         if rng.chance(1, 8) {
             d.tok(TokKind::Keyword, b";");
             let texts: [&[u8]; 4] = [b"", b" a comment line", b";; 1 sort bitvec 1", b" \xff\xfe"];
-            d.tok(TokKind::Text, *rng.pick(&texts));
+            if let Some(t) = super::long_text(rng, size, long_pct) {
+                d.tok(TokKind::Text, &t);
+            } else {
+                d.tok(TokKind::Text, *rng.pick(&texts));
+            }
             d.raw(b"\n");
             d.item_done();
             continue;
@@ -189,10 +194,15 @@ pub fn gen(rng: &mut Rng, _cfg: &PCfg, size: usize) -> Doc {
         match rng.below(6) {
             0 => {
                 d.raw(b" ");
-                d.tok(
-                    TokKind::Name,
-                    *rng.pick(&[&b"sym"[..], b"a.b[3]", b"x\xc3\xa4", b"\x80\xff", b"s;t"]),
-                );
+                if let Some(t) = super::long_text(rng, size, long_pct) {
+                    let t: Vec<u8> = t.into_iter().map(|b| if b == b' ' { b'_' } else { b }).collect();
+                    d.tok(TokKind::Name, &t);
+                } else {
+                    d.tok(
+                        TokKind::Name,
+                        *rng.pick(&[&b"sym"[..], b"a.b[3]", b"x\xc3\xa4", b"\x80\xff", b"s;t"]),
+                    );
+                }
             }
             1 => {
                 d.raw(b" ");
@@ -205,7 +215,11 @@ pub fn gen(rng: &mut Rng, _cfg: &PCfg, size: usize) -> Doc {
             2 => {
                 d.raw(b" ");
                 d.tok(TokKind::Keyword, b";");
-                d.tok(TokKind::Text, *rng.pick(&[&b" only comment"[..], b"", b"\xff"]));
+                if let Some(t) = super::long_text(rng, size, long_pct) {
+                    d.tok(TokKind::Text, &t);
+                } else {
+                    d.tok(TokKind::Text, *rng.pick(&[&b" only comment"[..], b"", b"\xff"]));
+                }
                 has_comment = true;
             }
             _ => {}
